@@ -30,6 +30,8 @@ type runIn struct {
 	Minimise         int        `json:"minimise"` // run budget of the minimiser per failing case (0 = off)
 	MaxMinimised     int        `json:"max_minimised"`
 	KeepScripts      bool       `json:"keep_scripts"`
+	InternalsEvery   int        `json:"internals_every"` // project every component State after every k-th handled event (0 = off)
+	IntOut           string     `json:"int_out"`         // trace file of the projections (CacheInternals.tla)
 }
 
 type runInfo struct {
@@ -63,6 +65,8 @@ type runInfo struct {
 	Flushes         int            `json:"flushes,omitempty"`
 	FilteredFlushes int            `json:"filtered_flushes,omitempty"`
 	DirtyFlushed    int            `json:"dirty_flushed,omitempty"`
+	IntLine         int            `json:"int_line,omitempty"` // first line of the run's projections in int_out
+	IntLines        int            `json:"int_lines,omitempty"`
 }
 
 // GenCase draws the idx-th case of the campaign identified by seed.
@@ -144,11 +148,23 @@ func init() {
 				return nil, err
 			}
 		}
+		var iw *traceWriter
+		if in.InternalsEvery > 0 && in.IntOut != "" {
+			if iw, err = newTraceWriter(in.IntOut); err != nil {
+				return nil, err
+			}
+		}
+		driftSet := map[Drift]bool{}
+		intStats := map[string]int{}
 		var infos []runInfo
 		events := 0
 		minimised := 0
 		one := func(run, idx int, c Case) error {
-			out := RunCase(run, c)
+			every := 0
+			if iw != nil {
+				every = in.InternalsEvery
+			}
+			out := RunCaseInternals(run, c, every)
 			info := runInfo{Run: run, Index: idx, Desc: c.Stack.Describe(), Kinds: c.Stack.Kinds(), Conc: c.Work.Concurrency, Size: c.Work.Size,
 				Requests: len(c.Work.Script), Issued: out.Issued, Answered: out.Answered, EndNs: out.EndTimeNs, Err: out.Err,
 				Panic: out.Panic, PanicInAkita: out.PanicInAkita, Symptoms: out.Symptoms}
@@ -173,6 +189,17 @@ func init() {
 				return err
 			}
 			events += info.Lines
+			if iw != nil {
+				if info.IntLine, info.IntLines, err = iw.write(out.Internals); err != nil {
+					return err
+				}
+				for _, d := range out.Drifts {
+					driftSet[d] = true
+				}
+				for k, v := range out.IntStats {
+					intStats[k] += v
+				}
+			}
 			if in.KeepScripts {
 				cc := c
 				info.Stack, info.Work = &cc.Stack, &cc.Work
@@ -225,6 +252,15 @@ func init() {
 				return nil, err
 			}
 		}
-		return map[string]any{"runs": infos, "events": events, "minimised": minimised}, nil
+		var drifts []Drift
+		if iw != nil {
+			if err := iw.close(); err != nil {
+				return nil, err
+			}
+			for d := range driftSet {
+				drifts = append(drifts, d)
+			}
+		}
+		return map[string]any{"runs": infos, "events": events, "minimised": minimised, "drifts": drifts, "int_stats": intStats}, nil
 	})
 }
